@@ -220,8 +220,22 @@ def run_e1(prop, tier, names, lengths, R: Result, timeout):
             R.inconclusive.append('E1 %s: %s' % (nm, P.error))
             continue
         if not getattr(P, 'native_ok', False):
-            R.inconclusive.append('E1 %s: native replay build failed (emitted module does not compile unshimmed? suspect C05/C06/C12/C13): %s'
-                                  % (nm, (P.native_error or '')[-800:]))
+            # Does the emitted module compile on its own?  If it does, the generated client (walker with explicit,
+            # exhaustive patterns and type ascriptions taken from the DECLARATIONS) is what fails to type-check:
+            # the emitted types do not have the declared shape.
+            alone = os.path.join(P.dir, 'module_alone.rs')
+            open(alone, 'w', encoding='utf8').write('#![allow(dead_code)]\npub mod payload { pub struct P { pub tag: u8, pub val: u8 } }\npub mod g {\n'
+                                                    + P.gen['rust'] + '\n}\n')
+            rc, out = common.sh(['rustc', '--edition', '2021', '--cap-lints', 'allow', '--crate-type', 'lib', '--emit', 'metadata',
+                                 '-o', os.path.join(P.dir, 'module_alone.rmeta'), alone], timeout=300)
+            errs = [l for l in (P.native_error or '').split('\n') if l.startswith('error')][:4]
+            if rc == 0 and prop == 'C02':
+                R.violation('e1:%s:shape' % nm, '%s: the emitted module compiles, but a client that destructures every emitted type exactly as '
+                            'declared (used fields present, `_` fields absent, Box<nonterminal> / payload types) does not type-check: %s'
+                            % (nm, ' | '.join(errs)), {'grammar_file': P.path, 'shape': True, 'errors': errs})
+            else:
+                R.inconclusive.append('E1 %s: native replay build failed (%s): %s' % (nm, 'emitted types differ from the declared shape' if rc == 0
+                                      else 'emitted module does not compile: suspect C05', (P.native_error or '')[-600:]))
             continue
         ran, bad = validate_encoding(P, lengths[nm] if isinstance(lengths, dict) else lengths, R)
         stats['native_validation_runs'] += ran
@@ -280,6 +294,14 @@ def run_e1(prop, tier, names, lengths, R: Result, timeout):
 def replay_e1(obj):
     rp = obj['replay']
     nm = os.path.basename(rp['grammar_file'])[:-5]
+    if rp.get('shape'):
+        P = prepare_grammar(nm, rp['grammar_file'], 'e1replay')
+        if P.error:
+            print('generate failed: ' + P.error)
+            return 1
+        ok = build_native(P, [0])
+        print('client type-checks' if ok else (P.native_error or '')[-1500:])
+        return 0 if ok else 1
     if rp.get('step'):
         P = prepare_grammar(nm, rp['grammar_file'], 'e1replay')
         if P.error:
@@ -341,7 +363,17 @@ def run_reduce_steps(prop, tier, names, R: Result, timeout=900):
         rc, out = common.sh(['rustc', '--edition', '2021', '--cap-lints', 'allow', '-O', nsrc, '-o', os.path.join(P.dir, 'native_step')], timeout=600)
         P.native_step = os.path.join(P.dir, 'native_step') if rc == 0 else None
         if rc != 0:
-            R.inconclusive.append('E1-step %s: native build failed: %s' % (nm, out[-600:]))
+            alone = os.path.join(P.dir, 'module_alone.rs')
+            open(alone, 'w', encoding='utf8').write('#![allow(dead_code)]\npub mod payload { pub struct P { pub tag: u8, pub val: u8 } }\npub mod g {\n'
+                                                    + P.gen['rust'] + '\n}\n')
+            rc2, out2 = common.sh(['rustc', '--edition', '2021', '--cap-lints', 'allow', '--crate-type', 'lib', '--emit', 'metadata',
+                                   '-o', os.path.join(P.dir, 'module_alone.rmeta'), alone], timeout=300)
+            errs = [l for l in out.split('\n') if l.startswith('error')][:4]
+            if rc2 == 0 and prop == 'C02':
+                R.violation('e1step:%s:shape' % nm, '%s: the emitted module compiles, but constructing / destructuring its types exactly as declared '
+                            'does not type-check: %s' % (nm, ' | '.join(errs)), {'grammar_file': P.path, 'shape': True, 'errors': errs})
+            else:
+                R.inconclusive.append('E1-step %s: native build failed: %s' % (nm, out[-600:]))
             continue
         stats['grammars'] += 1
         stats['max_rhs'] = max([stats['max_rhs']] + [len(r.rhs) for r in P.g.rules()])
